@@ -7,7 +7,7 @@ let () =
   try
     while true do
       let line = input_line stdin in
-      let out = try implode (Model.run_case (explode line)) with Stack_overflow -> "driver-stack-overflow" in
+      let out = try implode (Model.run_case_all (explode line)) with Stack_overflow -> "driver-stack-overflow" in
       print_string out;
       print_char '\n'
     done
